@@ -85,11 +85,7 @@ func (c *c13Case) step(op string) {
 				c06Acct{v[1], v[2], v[3], v[4], v[5], v[6], v[7], v[8], v[9]})))
 		case "submit":
 			n := atoi(f[1])
-			var v [4]uint64
-			for i := 0; i < 4; i++ {
-				v[i], _ = strconv.ParseUint(f[2+i], 10, 64)
-			}
-			rec := c06Ord{int64(v[0]), v[1], v[2], v[3]}
+			rec := c06ParseOrd(f[2:])
 			res = c06ErrName(d.db.SubmitOrder(d.toOrder(n, rec)))
 			if res == "ok" {
 				c.init[n] = rec
@@ -360,7 +356,7 @@ func runC13(r *Run) {
 				st = 2
 			}
 			unf[n], minm[n] = u, mn
-			ops = append(ops, fmt.Sprintf("submit %d %d %d %d %d", n, st, u, units, mn))
+			ops = append(ops, fmt.Sprintf("submit %d %d %d %d %d %s", n, st, u, units, mn, g.terms()))
 		}
 		var staged map[int]uint64
 		length := 1 + rng.Intn(25)
